@@ -22,7 +22,7 @@ PID = "C09"
 LEVEL = "exploration"
 ANCHORS = ["onl/netdev/port.py", "onl/netdev/red_port.py", "onl/netdev/port_monitor.py"]
 RULE = ("random arrival workloads (bursts into an idle port, arrivals exactly at departures, exact-fill occupancies) x "
-        "rate in {0, r} x qlimit in {None, 0, 1, 2, n} x byte/packet mode x element ids incl. '' and 0; PortMonitor with "
+        "rate in {0, r} x qlimit in {None, 0, 1, 2, n} x byte/packet mode x element ids incl. '' and 0, packets with bytes payloads of other lengths than their size; PortMonitor with "
         "scripted sampling on and off coincidences; REDPort with small weight factors under sustained overload; "
         "non-trivial = at least one packet was dropped AND at least one waited behind another (Port), or the RED "
         "average visited the probabilistic region; distinct by case hash")
